@@ -14,8 +14,14 @@ CLAIMS = {
          "Lean 4 proof (de Pina triangular/exchange argument, refinement of the literal bookkeeping) + trace validation against the implementation", "§5 C01"),
  "C02": ("proof", "Lean 4 theorems: under the same relational model the emitted basis is a minimum cycle basis (no heavier than ANY spanning family of cycle-space elements: exchange-injection argument, no dimension theory), its weight is the same for all variants and tie-breakings, and the accumulated return value is the emitted weight. Trace validation per run as in C01 plus an independent Horton-greedy optimum in python. The sorted-weights sentence is _partial (stated, not proved; compared per run).",
          "Lean 4 proof (exchange argument against arbitrary bases) + trace validation + independent optimum", "§5 C02"),
+ "C05": ("proof", "Lean 4 theorems: the family assembled by the approximate algorithms (a basis of the cycle space of the retained subgraph + for every dropped edge the edge plus a simple spanner path) is a basis of the cycle space of the caller's graph; every emitted id is an edge of the caller's graph (translated through the spanner edge map) and the returned value is the emitted weight under the caller's weights. Trace validation per run: spanner replay with the observed scan order, exact phase validated in the spanner's own ForestIndex coordinates against the literal support model, every edge cycle must be dropped-edge + a shortest spanner walk; descriptors are dereferenced through the caller's maps after return (ASan in the thorough tier); independent python oracle. The count m-n+c is checked per run (c05 count _partial: needs equality of component counts of spanner and graph).",
+         "Lean 4 proof (private-edge independence/spanning argument) + trace validation", "§5 C05"),
+ "C06": ("proof", "Lean 4 theorems: k = 0 is rejected with nothing emitted; k = 1 retains every edge of a simple graph so the run is the exact algorithm (C02: minimum basis); the spanner part is a minimum basis of the spanner; every dropped edge is closed by a cycle of weight <= 2k w(e). The global (2k-1) bound against every basis (Kavitha-Mehlhorn-Michail) is NOT proved (c06_bound_partial): it is checked per run against an independent optimum (python Horton-greedy) for k in 0..4.",
+         "Lean 4 proof of the ingredients + per-run check of the global bound", "§5 C06"),
  "C13": ("proof", "Lean 4 theorems over the literal model of greedy_fvs (exists/degree arrays, LIFO forRemoval with double pushes, clean-up loops) for every simple graph and EVERY pop order of the heap: output are distinct vertices, degree counters stay accurate (no size_t underflow), the graph minus the output is acyclic (rank argument over removal times), a forest yields the empty output (min-degree-2 subgraphs contain a cycle). The C++ output is replayed as the heap's pop sequence on the model (must reproduce it exactly and leave nothing alive) and judged by an independent union-find oracle.",
          "Lean 4 proof (loop invariants with fuel bound, rank_acyclic) + replay correspondence", "§5 C13"),
+ "C15": ("proof", "Lean 4 theorems over the literal model of is_bfs_reachable and construct_spanner for every simple graph, every k >= 1 and every order the unstable sort may leave among equal weights: the hop-bounded BFS decides 'walk of at most b retained edges', retained/dropped partition the edges, the spanner carries the input's endpoints and weights, every dropped edge has a walk of <= 2k-1 retained edges none heavier than it, the retained subgraph has no circuit of <= 2k edges, k = 1 retains everything. Literal replay of the C++ construction with the observed scan order (hook), plus independent oracle (BFS stretch, girth, weights).",
+         "Lean 4 proof (BFS correctness with fuel, greedy-scan invariants, walk extraction) + literal correspondence", "§5 C15"),
  "C16": ("proof", "Lean 4 theorems over the literal model of spanning_forest/ForestIndex for every simple graph and every iteration order of the unordered_set: forest edges acyclic and spanning (every off-forest edge closes a cycle with forest edges), n-c of them, index a bijection with inverse lookups, off-forest edges numbered first, dimension m-n+c without underflow, and the reindexed graph lies in the exact domain of the de Pina theory. Literal equality with the C++ (forest emission order, index, reverse, is_on_forest, dimension, components) using the observed unordered_set order; independent union-find oracle.",
          "Lean 4 proof (BFS invariants, algebraic connectivity) + literal correspondence", "§5 C16"),
  "C18": ("proof", "Lean 4 theorems over the literal model of ext_gcd (Bezout + gcd for all integer pairs), get_mult_inverse, is_prime (iff Nat.Prime for every p>=2, for any admissible square-root bound) and SpVecFP (canonical form for every history, add/scale/dot refine arithmetic mod p, negative scalars included); model tied to fp.hpp/spvecfp.hpp by exhaustive-small and random correspondence for long, int and cpp_int.",
@@ -36,7 +42,7 @@ def main():
     m = {"version": 1, "setup_cmd": "cd lean && lake build",
          "hooks": {"guard": "PARMCB_VERIF", "enable": "harnesses are compiled with -DPARMCB_VERIF against /repo/include (header-only library); demos are configured with -DCMAKE_CXX_FLAGS=-DPARMCB_VERIF where a hook is needed",
                    "baseline_off_cmd": "cmake -G Ninja -S /repo -B /repo/_build >/dev/null && cmake --build /repo/_build >/dev/null && ctest --test-dir /repo/_build -j8 --timeout 900",
-                   "source_commits": [], "add_only": True},
+                   "source_commits": ["23d84bd"], "add_only": True},
          "engines": [{"name": "lean4-model+correspondence", "path": "/verif/lean", "serves_properties": sorted(CLAIMS),
                       "kind_free_text": "Lean 4 models + theorems (lake project, Mathlib-free models, compiled model driver), C++ harnesses over the real headers, python orchestration (checks/)"}],
          "checks": checks,
